@@ -133,3 +133,35 @@ func VerifDrainCheckTrigger(pd *PDCoordinator) {
 		}
 	}
 }
+
+// VerifProcessRemovingNodes is one processRemovingNodes round on a copy of the removing-node
+// table, as handleRemovingNodes does on every tick.
+func VerifProcessRemovingNodes(pd *PDCoordinator) {
+	pd.nodesMutex.RLock()
+	removingNodes := make(map[string]string)
+	for nid, removeState := range pd.removingNodes {
+		removingNodes[nid] = removeState
+	}
+	pd.nodesMutex.RUnlock()
+	if len(removingNodes) == 0 {
+		return
+	}
+	pd.processRemovingNodes(pd.monitorChan, removingNodes)
+}
+
+// VerifRemovingNodes returns a copy of the removing-node table (node id -> state:
+// marked, pending, data_transferred, done).
+func VerifRemovingNodes(pd *PDCoordinator) map[string]string {
+	pd.nodesMutex.RLock()
+	defer pd.nodesMutex.RUnlock()
+	out := make(map[string]string, len(pd.removingNodes))
+	for nid, st := range pd.removingNodes {
+		out[nid] = st
+	}
+	return out
+}
+
+// VerifCurrentNodes is getCurrentNodes(nil): the live data nodes without those marked for removal.
+func VerifCurrentNodes(pd *PDCoordinator) map[string]cluster.NodeInfo {
+	return pd.getCurrentNodes(nil)
+}
